@@ -32,6 +32,7 @@ func init() {
 		{"value-normalises-in-place", "itertools/permutations.go", "func (iter *LexicographicPermutationIterator) Value() []int {\n\treturn iter.a", "func (iter *LexicographicPermutationIterator) Value() []int {\n\tif iter.n > 0 && iter.a[0] < 0 {\n\t\titer.a[0] = 0\n\t}\n\treturn iter.a", "FIELD-WRITERS:(*itertools.LexicographicPermutationIterator).Value"},
 	}
 	mutants["C12"] = []mutant{
+		{"lookup-walks-runes", "dawg/dawg.go", "letter:\n\tfor _, l := range word {\n\t\tfor j, link := range dawg.linkLabels {\n\t\t\tif link == l {", "letter:\n\tfor _, r := range string(word) {\n\t\tl := byte(r)\n\t\tfor j, link := range dawg.linkLabels {\n\t\t\tif link == l {", "BYTEWISE:(*dawg.Dawg).Lookup"},
 		{"lastword-recorded-before-check", "dawg/dawg.go", "\tif db.lastWord != nil && bytes.Compare(db.lastWord, b) != -1 {\n\t\treturn errors.New(\"byte slices must be added in lexicographical order\")\n\t}\n\tdb.lastWord = b\n", "\tprev := db.lastWord\n\tdb.lastWord = b\n\tif prev != nil && bytes.Compare(prev, b) != -1 {\n\t\treturn errors.New(\"byte slices must be added in lexicographical order\")\n\t}\n", "REJECT-PURE:(*dawg.Builder).Add"},
 		{"duplicates-admitted", "dawg/dawg.go", "bytes.Compare(db.lastWord, b) != -1 {", "bytes.Compare(db.lastWord, b) == 1 {", "MUSTGUARD:(*dawg.Builder).Add"},
 		{"compare-arguments-swapped", "dawg/dawg.go", "bytes.Compare(db.lastWord, b) != -1 {", "bytes.Compare(b, db.lastWord) != -1 {", "MUSTGUARD:(*dawg.Builder).Add"},
